@@ -33,7 +33,8 @@ RULE = ("single-command cases: 0-6 parameters mixing value types, every listed s
         "point with tauri.conf.json, with typegen.json}, both modes. Run histories: 2-4 runs into one output directory (unforced / --force / \"force\": true, "
         "returning to an earlier state; states differ in parameter case, a renamed parameter, channels, an injected type; CLI -c, CLI with discovered "
         "tauri.conf.json, build-script with tauri.conf.json / typegen.json), judged after every run; the same on one long-lived generator object (and analyzer) through generate_models. Parameter bindings: plain, "
-        "r#, mut, ref, ref mut, wildcard, struct and tuple-struct patterns at every position relative to value / channel / injected parameters")
+        "r#, mut, ref, ref mut, wildcard, struct and tuple-struct patterns at every position relative to value / channel / injected parameters. Source layout: the same items on one line, a whole file on one line, "
+        "attribute and fn apart (blank lines, comments), CRLF, tabs, signatures split over lines")
 TRUSTED = ["Spec/C04Obs.v: token-level reading of types.ts/commands.ts (Params declaration, z.object keys, the invoke argument) - a model of TypeScript, not proved",
            "Spec/C04TauriCase.v: Tauri's argument naming and the list of injected types, transcribed from the property text and tauri-macros; lowerCamelCase and snake_case cross-checked against heck 0.5 on every generated name",
            "python printer of the Rust source; its type abstraction is cross-checked against syn on every case"]
@@ -242,7 +243,7 @@ def project_case(rng):
                 f["macro"] = None
             if f["macro"] == "snake_case" and default_case != "snake_case":
                 f["macro"] = None
-    return {"default_case": default_case, "files": files}
+    return {"default_case": default_case, "files": files, "layout": rng.choice(LAYOUTS + ["normal"] * 5)}
 
 
 def overlap_matrix():
@@ -436,9 +437,56 @@ def render_files(case):
     """[[relative path, text], ...]; the struct the value types mention lives in a file of its own."""
     proj = to_project(case)
     out = [["zz_models.rs", MODELS_RS]]
+    layout = case.get("layout") or "normal"
     for fl in proj["files"]:
-        out.append([fl["path"], "use std::collections::HashMap;\n\n" + "\n".join(render_fn(f) for f in fl["fns"])])
+        out.append([fl["path"], apply_layout(layout, "use std::collections::HashMap;\n\n", [render_fn(f) for f in fl["fns"]])])
     return out
+
+
+LAYOUTS = ["normal", "file-on-one-line", "items-on-one-line", "attribute-apart", "crlf", "tabs", "fn-split-over-lines"]
+
+
+def apply_layout(layout, header, fns):
+    """The same items, laid out differently in the source text (the keys cannot depend on it)."""
+    if layout == "normal":
+        return header + "\n".join(fns)
+    if layout == "file-on-one-line":
+        return (header + " ".join(fns)).replace("\n", " ")
+    if layout == "items-on-one-line":
+        return header + " ".join(f.replace("\n", " ") for f in fns) + "\n"
+    if layout == "attribute-apart":
+        # blank lines, a line comment and a block comment between the attribute and the fn; a doc comment before it
+        return header + "\n".join(("/// docs\n" + f).replace("]\npub", "]\n\n// note: kept apart\n/* block\n   comment */\n\npub", 1) for f in fns)
+    if layout == "crlf":
+        return (header + "\n".join(fns)).replace("\n", "\r\n")
+    if layout == "tabs":
+        return (header + "\n".join(fns)).replace(", ", ",\t").replace("pub async fn ", "pub\tasync\tfn\t").replace("\n}", "\n\t}")
+    if layout == "fn-split-over-lines":
+        return header + "\n".join(f.replace("pub async fn ", "pub\nasync\nfn\n").replace("(", "(\n    ", 1).replace(", ", ",\n    ") for f in fns)
+    raise KeyError(layout)
+
+
+def layout_matrix():
+    """files with several commands whose channel sets differ, in every layout"""
+    S, O, C, C2 = VALUE_TYPES[0], OPTION_TYPES[0], CHANNEL_TYPES[0], CHANNEL_TYPES[3]
+
+    def fn(name, ps, command=True):
+        return {"name": name, "command": command, "macro": None, "attr": "tauri::command",
+                "params": [{"name": n, "ty": t[0], "abs": t[1]} for n, t in ps]}
+    files3 = [fn("start_ticker", [("interval_ms", VALUE_TYPES[1]), ("on_tick", C)]), fn("stop", []),
+              fn("helper_fn", [("ch", C2)], command=False), fn("read_chunks", [("file_path", S), ("on_chunk", C2), ("limit", O)]),
+              fn("plain_cmd", [("user_id", VALUE_TYPES[1])])]
+    cases = []
+    for layout in LAYOUTS:
+        for rot in range(len(files3)):
+            fns = files3[rot:] + files3[:rot]
+            cases.append({"default_case": None if rot % 2 else "snake_case", "layout": layout,
+                          "files": [{"path": "lib.rs", "fns": json.loads(json.dumps(fns))}]})
+        for i, c in enumerate(overlap_matrix()):
+            if i % 4 == 0:
+                c["layout"] = layout
+                cases.append(c)
+    return cases
 
 
 def render_source(case):
@@ -994,6 +1042,10 @@ def run(rep):
     pm = pattern_matrix()
     distribution(rep, "pattern-matrix", pm)
     rep.add("pattern-matrix", evaluate(pm))
+    # source layout
+    lm = layout_matrix()
+    rep.extra.setdefault("distribution", {})["layout-matrix"] = {"cases": len(lm), "layouts": LAYOUTS}
+    rep.add("layout-matrix", evaluate(lm))
     # random, outside every class (where the theorems speak) and inside each class
     n = 40000 if thorough else 1500
     main = [random_case(rng) for _ in range(n)]
